@@ -1,6 +1,7 @@
 package datagen
 
 import (
+	"math"
 	"strconv"
 	"strings"
 	"time"
@@ -220,8 +221,8 @@ func GenLeafPred(t *rapid.T, s Schema, crossOneIn int) *gen.Pred {
 	case "int", "float":
 		txt := rapid.SampledFrom(append(append([]string{}, numLiterals...), f.Pool...)).Draw(t, "p-num")
 		v, err := parseFloat(txt)
-		if err != nil || v < 0 {
-			txt, v = "200", 200
+		if err != nil || v < 0 || math.IsNaN(v) || math.IsInf(v, 0) {
+			txt, v = "200", 200 // NaN and the infinities cannot be written as number literals
 		}
 		return &gen.Pred{Kind: "num", Label: f.Name, Op: rapid.SampledFrom(cmpOps).Draw(t, "p-op"), Text: txt, Num: v}
 	case "dur":
